@@ -22,7 +22,9 @@ ASSUMPTIONS = [
     "letters/separators of a template are concrete; only decimal fields, PREFER_* choices and the clock are symbolic",
     "date theory (symx.dates) stands for CPython datetime/calendar; symbolic regex stands for re/regex on templates",
     "clock stub: now()/today() return one arbitrary valid instant per call of the API; process-local zone is UTC",
-    "TIMEZONE values for epoch forms: fixed-offset zones only (pytz UTC/Etc, table offsets); zones with transitions outside",
+    "TIMEZONE values for epoch forms: fixed-offset zones (pytz UTC/Etc, table offsets) and tz-database zones with "
+    "transitions (pytz's own code executed symbolically; instants whose wall clock in the zone exists exactly once, within a "
+    "window of years; oracle = zoneinfo-derived table)",
     "RFC-2822 form: the weekday word is the true weekday of the date (assumed, as a real rendering has it)",
 ]
 
@@ -122,11 +124,17 @@ def h_form(form, languages):
     return fn
 
 
-def h_epoch(form, tz, negative):
+def h_epoch(form, tz, negative, window=None):
     parts = EPOCH[form]
+    dst = "/" in tz and not tz.startswith("Etc/")
 
     def fn():
-        n = C.field("n", 10 ** 9, 10 ** 10 - 1)
+        if dst:
+            lo = int((_dt.datetime(window[0], 1, 2) - _dt.datetime(1970, 1, 1)).total_seconds())
+            hi = int((_dt.datetime(window[1], 12, 30) - _dt.datetime(1970, 1, 1)).total_seconds())
+            n = C.field("n", max(lo, 10 ** 9), min(hi, 10 ** 10 - 1))
+        else:
+            n = C.field("n", 10 ** 9, 10 ** 10 - 1)
         v = {"n": n, "ms": C.field("ms", 0, 999) if len(parts) > 1 else 0,
              "us": C.field("us", 0, 999) if len(parts) > 2 else 0}
         st, wit = C.pref_settings()
@@ -140,6 +148,20 @@ def h_epoch(form, tz, negative):
         do = dd.date_obj
         if do is None:
             return C.outcome(False, wit, "none")
+        if dst:
+            # tz-database zone with transitions: pytz's fromutc/localize run symbolically; oracle = zoneinfo-derived table;
+            # premise: the instant's wall clock in the zone exists exactly once (the library goes through that wall clock)
+            from . import zones
+            tab = zones.table(tz, window[0] - 1, window[1] + 1)
+            uo, ur = dates.EPOCH_ORD + _zi(n) / 86400, (_zi(n) % 86400) * 1000000
+            zoff = zones.z_offset_at_utc(tab, uo, ur)
+            o, r0 = zones._shift(uo, ur, zoff)
+            once, _, _, _ = zones.z_local_to_utc(tab, o, r0)
+            if not core.branch(z3.simplify(once)):
+                return C.outcome(True, wit, "repeated-hour (outside the premise)")
+            r = r0 + _zi(v["ms"]) * 1000 + _zi(v["us"])
+            ok = z3.And(do._ord() == o, do._us_of_day() == r, do.tzinfo is None, dd.period == "day")
+            return C.outcome(ok, wit, "parsed")
         off = _tz_offset_s(tz)
         secs = (-_zi(n) if negative else _zi(n)) + off
         o = dates.EPOCH_ORD + secs / 86400
@@ -200,6 +222,10 @@ def tasks(tier, seed):
         [(f, tz, neg) for f in EPOCH for tz in EPOCH_TZ for neg in (False, True)]
     for f, tz, neg in eps:
         add("epoch:%s:%s:%s" % (f, tz, "neg" if neg else "pos"), "h_epoch", {"form": f, "tz": tz, "negative": neg}, 200)
+    dz = ["America/New_York", "Europe/Paris", "Australia/Lord_Howe", "Asia/Kolkata"]
+    for j, z in enumerate(dz if not quick else [dz[seed % len(dz)]]):
+        add("epoch:epoch_ms:%s:pos" % z, "h_epoch", {"form": "epoch_ms", "tz": z, "negative": False,
+                                                       "window": [2021, 2021] if quick else [1971, 2037]}, 200)
     return out
 
 
@@ -232,7 +258,13 @@ def build_spec(task, viol):
             st["PARSERS"] = ["negative-timestamp", "timestamp", "relative-time", "absolute-time"]
         spec["call"] = {"string": render(parts, w), "languages": ["en"], "settings": st}
         n = -w["n"] if a["negative"] else w["n"]
-        e = _dt.datetime(1970, 1, 1) + _dt.timedelta(seconds=n + _tz_offset_s(a["tz"]),
+        if a.get("window"):
+            from . import zones
+            tab = zones.table(a["tz"], a["window"][0] - 1, a["window"][1] + 1)
+            zoff = zones.offset_at_utc_native(tab, _dt.datetime(1970, 1, 1) + _dt.timedelta(seconds=n))
+        else:
+            zoff = _tz_offset_s(a["tz"])
+        e = _dt.datetime(1970, 1, 1) + _dt.timedelta(seconds=n + zoff,
                                                      microseconds=w.get("ms", 0) * 1000 + w.get("us", 0))
         spec["expect"] = [e.year, e.month, e.day, e.hour, e.minute, e.second, e.microsecond]
     return spec
